@@ -45,7 +45,12 @@ SCORER_SPECS = [{"cls": "L2Cost"}, {"cls": "L2Cost", "param": 0.5}, {"cls": "Gau
                 {"cls": "GaussianCovCost", "param": {"tuple": [{"array": [0.0, 0.0]}, {"array": [[1.0, 1.0 - 1e-13], [1.0 - 1e-13, 1.0]]}]}},
                 {"cls": "Saving", "baseline_cost": {"cls": "GaussianCovCost", "param": {"tuple": [{"array": [0.5, -0.5]}, {"array": [[2.0, 2.0], [2.0, 2.0 + 4e-12]]}]}}},
                 {"cls": "GaussianVarCost", "param": {"tuple": [{"array": [0.0, 1.0]}, {"array": [1.0, 1e-9]}]}},
-                {"cls": "L2Cost", "param": {"array": [0.5, -1.5, 2.0]}}]
+                {"cls": "L2Cost", "param": {"array": [0.5, -1.5, 2.0]}},
+                # a user-defined cost with a hyper-parameter of its own (`scale`) inside the three wrappers: nested set_params must
+                # reach every private copy a wrapper keeps (D22 LocalAnomalyScore, D32 Saving)
+                {"cls": "Saving", "baseline_cost": {"cls": "L1Cost", "param": 0.5, "scale": 2.0}},
+                {"cls": "LocalAnomalyScore", "cost": {"cls": "L1Cost", "scale": 2.0}},
+                {"cls": "ChangeScore", "cost": {"cls": "L1Cost", "scale": 2.0}}]
 SHARE_KEY = {"PELT": "cost", "MovingWindow": "change_score", "SeededBinarySegmentation": "change_score",
              "CircularBinarySegmentation": "anomaly_score", "CAPA": "collective_saving", "MVCAPA": "collective_saving",
              "StatThresholdAnomaliser": "change_detector"}  # (the object an anomaliser shares is a detector: facet shared_wrapped_detector only)
@@ -765,6 +770,11 @@ def make_machine(tier, api):
             key = f"{nested[0]}__param" if nested else "param"
             if spec["cls"] in ("CUSUM", "L2Saving"):
                 return
+            if nested and "scale" in spec[nested[0]] and data.draw(st.booleans()):
+                # the user cost's own hyper-parameter, through the wrapper
+                key, value = f"{nested[0]}__scale", data.draw(st.sampled_from([0.5, 3.0, 1.0]))
+            elif nested and spec["cls"] == "Saving" and value is None:
+                return  # a saving needs a fixed baseline parameter
             self.run({"op": "scorer_set_params", "slot": slot, "params": {key: value}})
 
         @rule(slot=st.integers(0, N_SCORER_SLOTS - 1), spec=st.sampled_from(SCORER_SPECS))
